@@ -228,6 +228,8 @@ type LinkEnd struct {
 	in, out *pipe
 	name    string
 	once    sync.Once
+	closed  bool
+	cw      bool
 	// OnWrite, if set, observes every accepted Write (for monitors).
 	OnWrite func(b []byte)
 }
@@ -245,14 +247,37 @@ func (e *LinkEnd) Write(b []byte) (int, error) {
 // Close closes both directions as seen from this end.
 func (e *LinkEnd) Close() error {
 	e.once.Do(func() {
+		e.in.mu.Lock()
+		e.closed = true
+		e.in.mu.Unlock()
 		e.out.closeWrite()
 		e.in.closeRead()
 	})
 	return nil
 }
 
+// Closed reports whether Close was called on this end.
+func (e *LinkEnd) Closed() bool {
+	e.in.mu.Lock()
+	defer e.in.mu.Unlock()
+	return e.closed
+}
+
+// WriteClosed reports whether CloseWrite (or Close) was called on this end.
+func (e *LinkEnd) WriteClosed() bool {
+	e.in.mu.Lock()
+	defer e.in.mu.Unlock()
+	return e.cw || e.closed
+}
+
 // CloseWrite half-closes: the peer reads EOF after the data in flight.
-func (e *LinkEnd) CloseWrite() error { e.out.closeWrite(); return nil }
+func (e *LinkEnd) CloseWrite() error {
+	e.in.mu.Lock()
+	e.cw = true
+	e.in.mu.Unlock()
+	e.out.closeWrite()
+	return nil
+}
 
 type linkAddr string
 
